@@ -719,14 +719,28 @@ package machine
 //@   loop 1 invariant rest: unlocked(t.Machine.activeStatesMx) && (forall j int :: idx1 <= j && j < len(snap) ==> mem(*t.cacheTargetStates, snap[j]))
 
 //@ func (t *Transition) emitStateStateEvents() (r Result)
-//@   trusted negotiation phase: result range, frame and phase only
-//@   requires phase: ghost.phase <= 4
+//@   props C03 C05 C07
+//@   requires nn:     t.Machine != nil && t.Mutation != nil && TargetOK(t) && TargetParallel(t) && !isnil(t.cacheSchema)
+//@   requires phase:  ghost.phase <= 4
 //@   ghostset phase := 4
-//@   assigns Transition.latestHandlerToState, Transition.latestHandlerIsEnter, Transition.latestHandlerIsFinal, Transition.TargetIndexes, Transition.cacheTargetStates, Machine.panicCaught, Machine.queue, Machine.queueLen, Machine.queueTicksPending, Machine.logEntries
-//@   ensures target: old(TargetOK(t)) ==> TargetOK(t)
-//@   ensures shrink: forall x string :: mem(*t.cacheTargetStates, x) ==> mem(old(*t.cacheTargetStates), x)
-//@   ensures queue: old(QueueInv(t.Machine)) ==> QueueInv(t.Machine)
-//@   ensures res: r == Executed || r == Canceled
+//@   assigns Transition.latestHandlerToState, Transition.latestHandlerIsEnter, Transition.latestHandlerIsFinal, t.TargetIndexes, t.cacheTargetStates, Machine.panicCaught, Machine.queue, Machine.queueLen, Machine.queueTicksPending, Machine.logEntries, ghost.faults, ghost.vetoes
+//@   ensures stopped: r == Canceled ==> ghost.vetoes > old(ghost.vetoes)
+//@   ensures clean:   ghost.vetoes == old(ghost.vetoes) ==> r == Executed && t.cacheTargetStates == old(t.cacheTargetStates) && t.TargetIndexes == old(t.TargetIndexes)
+//@   ensures res:     r == Executed || r == Canceled
+//@   ensures target:  TargetOK(t) && TargetParallel(t)
+//@   ensures shrink:  forall x string :: mem(*t.cacheTargetStates, x) ==> mem(old(*t.cacheTargetStates), x)
+//@   ensures manual:  !t.Mutation.IsAuto ==> t.cacheTargetStates == old(t.cacheTargetStates) && t.TargetIndexes == old(t.TargetIndexes)
+//@   ensures dropped: forall x string :: mem(old(*t.cacheTargetStates), x) && !mem(*t.cacheTargetStates, x) ==> t.cacheSchema[x].Auto
+//@   ensures queue:   old(QueueInv(t.Machine)) ==> QueueInv(t.Machine)
+//@   ensures faults:  ghost.faults == old(ghost.faults)
+//@   loop 1 invariant inv: TargetOK(t) && TargetParallel(t) && ghost.faults == old(ghost.faults) && ghost.vetoes >= old(ghost.vetoes) && (old(QueueInv(t.Machine)) ==> QueueInv(t.Machine))
+//@   loop 1 invariant link: isnil(newAfter) ? (ghost.vetoes == old(ghost.vetoes) && t.cacheTargetStates == old(t.cacheTargetStates) && t.TargetIndexes == old(t.TargetIndexes)) : (*t.cacheTargetStates == newAfter && t.Mutation.IsAuto && ghost.vetoes > old(ghost.vetoes))
+//@   loop 1 invariant shrink: forall x string :: mem(*t.cacheTargetStates, x) ==> mem(old(*t.cacheTargetStates), x)
+//@   loop 1 invariant dropped: forall x string :: mem(old(*t.cacheTargetStates), x) && !mem(*t.cacheTargetStates, x) ==> t.cacheSchema[x].Auto
+//@   loop 2 invariant inv: TargetOK(t) && TargetParallel(t) && ghost.faults == old(ghost.faults) && ghost.vetoes >= old(ghost.vetoes) && (old(QueueInv(t.Machine)) ==> QueueInv(t.Machine))
+//@   loop 2 invariant link: isnil(newAfter) ? (ghost.vetoes == old(ghost.vetoes) && t.cacheTargetStates == old(t.cacheTargetStates) && t.TargetIndexes == old(t.TargetIndexes)) : (*t.cacheTargetStates == newAfter && t.Mutation.IsAuto && ghost.vetoes > old(ghost.vetoes))
+//@   loop 2 invariant shrink: forall x string :: mem(*t.cacheTargetStates, x) ==> mem(old(*t.cacheTargetStates), x)
+//@   loop 2 invariant dropped: forall x string :: mem(old(*t.cacheTargetStates), x) && !mem(*t.cacheTargetStates, x) ==> t.cacheSchema[x].Auto
 
 // Final handlers run only after the target has been applied, and see the real
 // time in TimeAfter.
@@ -747,6 +761,12 @@ package machine
 // TargetOK: the cached target is a duplicate-free list of registered states.
 //@ pred TargetOK(t *Transition) := t.cacheTargetStates != nil && nodup(*t.cacheTargetStates) && subset(*t.cacheTargetStates, t.Machine.stateNames)
 
+// ExitEnterDef: the exit and enter lists are exactly the states the target
+// deactivates, and activates or (Multi, called) re-activates.
+//@ pred ExitEnterDef(t *Transition) := (forall x string :: mem(t.Exits, x) <==> mem(t.Machine.activeStates, x) && !mem(*t.cacheTargetStates, x))
+//@      && (forall x string :: mem(t.Enters, x) <==> mem(*t.cacheTargetStates, x) &&
+//@            (!(!t.Machine.disposing && mem(t.Machine.stateNames, x) && mem(t.Machine.activeStates, x)) || (t.Machine.schema[x].Multi && mem(*t.Mutation.cacheCalled, x))))
+
 // TxInv: what newTransition / the resolver establish for a running transition.
 //@ pred TxInv(t *Transition) := t.Machine != nil && t.Mutation != nil && t.MachApi != nil
 //@      && len(t.TimeBefore) == len(t.Machine.stateNames) && Known(t.Machine, *t.Mutation.cacheCalled)
@@ -757,6 +777,7 @@ package machine
 //@      && t.cacheTargetStates != nil && t.Mutation.cacheCalled != nil && t.cacheStatesBefore != nil
 //@      && nodup(*t.cacheTargetStates) && subset(*t.cacheTargetStates, t.Machine.stateNames)
 //@      && t.Machine.t == t && t.Machine.resolver != nil && t.Machine.subs != nil
+//@      && (t.IsAccepted ==> ExitEnterDef(t))
 
 // Interface contracts of tracers (assumed of every implementation): callbacks
 // assign nothing of the machine; each call is counted.
@@ -885,6 +906,8 @@ package machine
 //@   ensures  auto_atmost1:  ghost.prepended <= old(ghost.prepended) + 1
 //@   ensures  nochange_noauto: !hasStateChanged ==> ghost.prepended == old(ghost.prepended)
 //@   ensures  inv:           ClockInv(t.Machine)
+//@   ensures  ctx_complete:  ghost.faults == old(ghost.faults) && !old(t.Mutation.IsAuto) && !t.Machine.disposing ==>
+//@                (forall s string :: t.Machine.clock[s] != old(t.Machine.clock[s]) ==> mem(t.cacheActivated, s) || mem(t.cacheDeactivated, s))
 //@   ensures  traced_start:  t.Machine.disposed || ghost.tStart == len(t.Machine.tracers)
 //@   ensures  traced_end:    t.Machine.disposed || ghost.tEnd == len(t.Machine.tracers)
 //@   ensures  traced_finals: ghost.tFinals == 0 || t.Machine.disposed || ghost.tFinals == len(t.Machine.tracers)
